@@ -526,7 +526,10 @@ def stream_receiver_paths(chk, fx, kind, b, mlen):
                              key="C06/R1 %s search-window-start %s" % (fn, why))
                 # computed from the length before the read
                 if rd:
-                    before = p.trace.index(("assign", a[1], a[2], a[3])) < p.trace.index(rd[0])
+                    ai, ri = p.trace.index(("assign", a[1], a[2], a[3])), p.trace.index(rd[0])
+                    # the offset may be *stored* after the read as long as the length it is derived from was taken before it
+                    lens = [i for i, x in enumerate(p.trace[:ai]) if x[0] == "call" and T.short(x[1], 2) in ("BytesMut::len", "Vec::len") and x[2] and _buffer_root(x[2][0])[0] in roots]
+                    before = ai < ri or (bool(lens) and lens[-1] < ri)
                     chk.instance("C06/R1", "%s: the offset is taken before the read (from the length already searched)" % kind, b.name, loc_of(a[3]), holds=before,
                                  key="C06/R1 %s search-window-start after-read" % fn)
             if rd and p.end == "iter-end" and not asg:
